@@ -45,3 +45,22 @@ func init() {
 		},
 	})
 }
+
+func init() {
+	register(&propDef{
+		ID: "SMALLTEST", Explanation: "wip", Rule: "wip",
+		Run: func(c *Ctx, r *Result) {
+			runSORT(c, r, "SORT", c.REval, c.Lib)
+			runMERGE(c, r, "MERGE")
+			runHASH(c, r, "HASH", srcFuncsIn(c.REval), c.REval)
+			runCODEC(c, r, "CODEC")
+			runUNIT(c, r, "UNIT")
+			runGUARD(c, r, "GUARD", srcFuncsIn(c.REval), c.REval)
+			runRangeGuard(c, r, "GUARD", 10000000)
+			runCondLazy(c, r, "LAZY")
+			runCLOCK(c, r, "CLOCK")
+			runUnixNano(c, r, "GUARD-API")
+			runMARSHAL(c, r, "MARSHAL")
+		},
+	})
+}
